@@ -100,6 +100,8 @@ type fontEntry struct {
 	index   int
 	face    *font.Face
 	hb      *hbref.Face // for triage only
+	// the reference reads the cmap differently: it was given the port's mapping (see refFace)
+	refCmapOverridden bool
 	feats   []string
 	pool    []rune
 	scripts []string
@@ -183,10 +185,42 @@ func loadFont(rel string, index int) (*fontEntry, error) {
 }
 
 // refFace lazily creates the reference face (triage only).
+//
+// When the two loaders read the font's character map differently (no Unicode/Microsoft subtable:
+// the port falls back to a Macintosh subtable, the reference maps nothing; symbol remapping), the
+// port's own mapping is installed in the reference font: otherwise the reference shapes a buffer
+// of .notdef glyphs and its verdict is not about the input the port shaped.
 func (fe *fontEntry) refFace() *hbref.Face {
 	if fe.hb == nil {
 		if data, err := corpus.Bytes(fe.rel); err == nil && hbref.FaceCount(data) > fe.index {
 			fe.hb = hbref.NewFace(data, fe.index)
+			if fe.hb.GlyphCount() > 0 && fe.face.Cmap != nil {
+				mapping := map[rune]uint32{}
+				differs := false
+				probe := func(r rune) {
+					g, ok := fe.face.NominalGlyph(r)
+					if ok {
+						mapping[r] = uint32(g)
+					}
+					if hg, hok := fe.hb.NominalGlyph(r); hok != ok || (ok && hg != uint32(g)) {
+						differs = true
+					}
+				}
+				for it := fe.face.Cmap.Iter(); it.Next(); {
+					r, _ := it.Char()
+					probe(r)
+					if r >= 0xF000 && r <= 0xF0FF {
+						probe(r - 0xF000) // symbol cmaps: both libraries remap, possibly not alike
+					}
+				}
+				for r := rune(0x20); r < 0x250; r++ {
+					probe(r) // runes the reference maps and the port does not
+				}
+				if differs {
+					fe.hb.OverrideNominalGlyphs(mapping)
+					fe.refCmapOverridden = true
+				}
+			}
 		}
 	}
 	return fe.hb
